@@ -109,6 +109,41 @@ def bounded_operator_chains(p):
   return S.result()
 
 
+def bounded_chain_api(p):
+  """t1.chain(t2): same name -> fused into one stage, different names -> a chain of named stages; both must route
+  exactly like applying the operators of t1 then those of t2."""
+  S = Search(p, dict(pairs='all ordered pairs of single-operator transforms from the alphabet (valid key-wise)', naming='same name (fuse) / different names (chain)'))
+  alpha = _alphabet()
+  for (n1, need1, b1, r1, k1), (n2, need2, b2, r2, k2) in itertools.product(alpha, repeat=2):
+    keys = {'a', 'b', 'n'}
+    if not need1 <= keys:
+      continue
+    keys1 = k1(keys)
+    if not need2 <= keys1 or (n2.startswith('assign') and any(k in keys1 for k in (k2(set()) - {'n'}))) or (n1 == n2 == 'sink(a)'):
+      continue
+    for same_name in (True, False):
+      sink = Sink()
+      def build():
+        t1 = b1(transform.TreeTransform(name='s'), sink)
+        t2 = b2(transform.TreeTransform(name='s' if same_name else 't'), sink)
+        return t1.chain(t2)
+      recs = _records()
+      got = expect(lambda: list(build().make().iterate(recs)))
+      cur = [copy.deepcopy(r) for r in _records()]
+      for ref in (r1, r2):
+        cur = [o for o in (ref(r) for r in cur) if o is not None]
+      if not S.check(got == ('ok', cur), dict(first=n1, second=n2, same_name=same_name), f'{n1} .chain( {n2} ) (same name={same_name}): {got}; reference {cur}', cls=f'chain-{same_name}'):
+        return S.result()
+  # chaining a transform that already has an input or a data source, or a duplicate stage name, is rejected
+  T = transform.TreeTransform
+  bad = [('child with data source', lambda: T(name='a').apply(fn=f_neg, input_keys='a').chain(T(name='b').data_source([1]))),
+         ('duplicate stage name', lambda: T(name='a').apply(fn=f_neg, input_keys='a').chain(T(name='b').apply(fn=f_neg)).chain(T(name='a').apply(fn=f_neg)))]
+  for name, mk in bad:
+    got = expect(mk)
+    S.check(got[0] == 'raise', dict(case=name), f'{name}: {got[0]}', cls=name)
+  return S.result()
+
+
 def bounded_sink_on_failure(p):
   """A fault mid-stream: the error reaches the caller and every sink is still closed exactly once."""
   S = Search(p, dict(failing_record='each of 4', sink_position='before / after the failing operator', named_stages='yes/no'))
